@@ -54,6 +54,7 @@ M = {
                            'if self.value < other.value and other.value - self.value <= 2 ** (self.bits - 1):'),
  's07_add_limit_plus_one': (S, ADDLIM, ADDLIM.replace('(2 ** (self.bits - 1) - 1)', '(2 ** (self.bits - 1))')),
  's08_sub_adds': (S, '        v -= delta\n        v = v % 2**self.bits\n        return Serial(v, self.bits)', '        v += delta\n        v = v % 2**self.bits\n        return Serial(v, self.bits)'),
+ 's10_ge_drops_equality': (S, 'return self == other or self > other', 'return self > other'),
  's09_add_32bit_only_wrap': (S, ADDLIM, ADDLIM.replace('v = v % 2**self.bits', 'v = v % 2**32')),
 }
 names = sys.argv[1:] or list(M)
